@@ -43,11 +43,20 @@ func Protocol(t *testing.T, bind *Binding, job *Job, p *sdl.Program, acc *statAc
 	var recs []RunRec
 	w := model.NewWorld(p, EffectiveCfg(p))
 	out := w.StartOutcome()
+	var aborted *model.Obs
 	do := func(s SpecData) *model.Obs {
+		if aborted != nil {
+			// a run of this program exceeded its budget (non-termination): one such run is
+			// enough, the remaining ones would only burn time
+			return aborted
+		}
 		progress(job, "run %s", p.ID)
 		o := Run(t, bind, &RunSpec{SpecData: s, Prog: p, TmpDir: job.TmpDir})
 		recs = append(recs, RunRec{Spec: s, Obs: o})
 		acc.addRun(p, o, NonTrivial(job.Property, w, out, o))
+		if o.OverSteps {
+			aborted = o
+		}
 		if len(acc.Samples) < 3 && o.OK() {
 			acc.Samples = append(acc.Samples, sampleOf(p, s, o))
 		}
